@@ -130,6 +130,15 @@ func (s *slicer) storesInto(a ssa.Value, d int) {
 			}
 		case *ssa.Slice:
 			s.storesInto(r, d+1)
+		case ssa.CallInstruction:
+			// the object is handed (by address) to a call: what the call is given may end up inside it
+			// (builder.WriteString(x), list.Append(x))
+			cc := r.Common()
+			if len(cc.Args) > 0 && cc.Args[0] == a {
+				for _, other := range cc.Args[1:] {
+					s.walk(other, d+1)
+				}
+			}
 		}
 	}
 }
